@@ -70,15 +70,17 @@ def contiguous_bits(v, w):
 
 def ip6_class(t):
     """structural class of a malformed IPv6 text (for finding keys)"""
-    if any(c in WS for c in t): return "whitespace"
-    if "+" in t or "-" in t: return "sign"
-    if "x" in t.lower(): return "0x-prefix"
-    if "_" in t: return "underscore"
     head = t
     if "." in t:
         head, _, tail = t.rpartition(":")
-        if ref_ip4(tail) is None: return "ip4-tail"
         head += ":0:0"
+        # a well-formed group part with a dotted-quad tail only libc's inet_aton accepts: the IPv4 parser's defect
+        if ref_ip4(tail) is None and ref_ip6(head) is not None: return "ip4-tail"
+    if any(c in WS for c in head): return "whitespace"
+    if "+" in head or "-" in head: return "sign"
+    if "x" in head.lower(): return "0x-prefix"
+    if "_" in head: return "underscore"
+    if "." in t and ref_ip4(t.rpartition(":")[2]) is None: return "ip4-tail"
     if not re.fullmatch(r"[0-9a-fA-F:]*", head): return "other-chars"
     segs = head.split(":")
     if any(len(s) > 4 for s in segs): return "long-group"
@@ -215,7 +217,7 @@ class C16(Check):
                 ["self._value = struct.unpack('i', _inet_aton(addr.decode()))[0]", "self._value = struct.unpack('i', _inet_aton(addr))[0]"]),
         "ip6": (["IPAddr6.__init__"],
                 ["if addr.count('::') > 1:", "if len(segs) < 3 or len(segs) > 8:"],
-                ["(left, dc, right) = addr.partition('::')", "groups = [g for side in (left, right) if side for g in side.split(':')]",
+                ["left, dc, right = addr.partition('::')", "groups = [g for side in (left, right) if side for g in side.split(':')]",
                  "if '::' in right or len(groups) > (7 if dc else 8) or len(groups) < (0 if dc else 8) or (not all((0 < len(g) <= 4 and "
                  "all((c in _hex_digits for c in g)) for g in groups))):"]),
         "eth": (["EthAddr.__init__"],
